@@ -22,8 +22,8 @@ theorem hexish_cons (b : UInt8) (x : Bytes) :
 
 theorem hexish_inj : ∀ a b : Bytes, hexish a = hexish b → a = b
   | [], [], _ => rfl
-  | [], _ :: _, h => by simp [hexish_cons, hexish] at h
-  | _ :: _, [], h => by simp [hexish_cons, hexish] at h
+  | [], _ :: _, h => by simp [hexish] at h
+  | _ :: _, [], h => by simp [hexish] at h
   | c :: a, d :: b, h => by
     rw [hexish_cons, hexish_cons] at h
     simp only [List.cons.injEq] at h
